@@ -84,6 +84,11 @@ func (c *ColDateTime64) Infer(t ColumnType) error {
 	return nil
 }
 
+func (c *ColDateTime64) adoptType(t ColumnType) error {
+	c.Location = nil // the zone comes from the type, or there is none
+	return c.Infer(t)
+}
+
 func (c ColDateTime64) Row(i int) time.Time {
 	if !c.PrecisionSet {
 		panic("DateTime64: no precision set")
